@@ -689,3 +689,32 @@ pub fn scn_big(out: &mut TraceOut, r: &mut R, n: u32, nops: usize) {
 pub fn summary(out: TraceOut) -> Value {
     out.finish()
 }
+
+/// C14 through the public API: entries whose key and value lengths sit on the framing
+/// boundaries (2^7, 2^14, 2^21 -1/+0/+1; 2^28 in the heavy tier), written and read back.
+pub fn scn_framing(out: &mut TraceOut, r: &mut R, idx: u64, heavy: bool) {
+    let lens: [usize; 11] = [0, 1, 127, 128, 129, 16383, 16384, 16385, 2097151, 2097152, 2097153];
+    let (kl, vl) = if heavy && idx % 29 == 28 {
+        (4usize, (1usize << 28) - 1 + (idx as usize / 29) % 3)
+    } else {
+        (lens[(idx as usize) % 11], lens[(idx as usize / 11) % 11])
+    };
+    let cfg = Cfg { codec: 0, level: 0, block_size: *pick(r, &[1024usize, 8192]), interval: *pick(r, &[1usize, 8]), levels: *pick(r, &[0u8, 1, 2]) };
+    let mut entries: Vec<Entry> = Vec::new();
+    if kl > 0 {
+        entries.push((vec![], value_for(1, 3)));
+    }
+    entries.push((vec![5u8; kl], value_for(2, vl)));
+    let mut after = vec![5u8; kl];
+    after.push(9);
+    entries.push((after, value_for(3, kl % 7)));
+    let (dict, data) = build_and_log(out, &cfg, &entries, &[], 2);
+    let Some(data) = data else { return };
+    let mut s = new_session(out, entries, dict, data);
+    if let Some(c) = s.cursor(true) {
+        s.scan(c, true);
+    }
+    if let Some(c) = s.cursor(true) {
+        s.scan(c, false);
+    }
+}
